@@ -41,6 +41,7 @@ type call struct {
 	hasErr bool
 	errn   int
 	of     int
+	in        int  // >= 0: the call is issued from inside the loader of Load call c<in> (dependent loads)
 	keyGiven  bool // k= present (the key itself may be nil: contract violation)
 	nilLoader bool // loader=nil (contract violation)
 }
@@ -223,7 +224,7 @@ func parseScen(line string) (*scen, string) {
 		if seen[cid] != nil {
 			return nil, "bad-script duplicate-client"
 		}
-		c := &call{at: at, cid: cid, kind: w[2], of: -1}
+		c := &call{at: at, cid: cid, kind: w[2], of: -1, in: -1}
 		for _, a := range w[4:] {
 			switch {
 			case strings.HasPrefix(a, "k="):
@@ -248,6 +249,12 @@ func parseScen(line string) (*scen, string) {
 				c.nilLoader = true
 			case strings.HasPrefix(a, "loader="):
 				parseResParts(c, strings.Split(a[7:], ","))
+			case strings.HasPrefix(a, "in="):
+				o, ok := parseCid(a[3:])
+				if !ok {
+					return nil, "bad-script in"
+				}
+				c.in = o
 			case strings.HasPrefix(a, "of="):
 				o, ok := parseCid(a[3:])
 				if !ok {
@@ -271,6 +278,12 @@ func parseScen(line string) (*scen, string) {
 		sc.calls = append(sc.calls, c)
 	}
 	for _, c := range sc.calls {
+		if c.in >= 0 {
+			o := seen[c.in]
+			if o == nil || o.kind != "load" || o.nilLoader || o.key == nil || o.in >= 0 {
+				return nil, "bad-script nested-owner"
+			}
+		}
 		if c.kind == "fget" {
 			o := seen[c.of]
 			if o == nil || o.kind != "load" || o.at > c.at || o.nilLoader || o.key == nil {
@@ -352,58 +365,36 @@ func runScenario(line string) string {
 		}
 	}
 	var futMu sync.Mutex
+	nested := map[int][]*call{} // loader owner -> calls issued from inside that loader, in script order
 	for _, c := range sc.calls {
-		c := c
-		go func() {
-			if d := c.at - int64(time.Since(t0)); d > 0 {
-				time.Sleep(time.Duration(d))
+		if c.in >= 0 {
+			nested[c.in] = append(nested[c.in], c)
+		}
+	}
+	// perform issues one call (from its own goroutine, or from inside a loader for nested calls)
+	var perform func(c *call)
+	perform = func(c *call) {
+		if c.kind == "fget" { // Future.Get2 is issued at its instant, or as soon as its Load has handed out the future
+			<-ready[c.of]
+		}
+		mu.Lock()
+		logf("call c%d", c.cid)
+		mu.Unlock()
+		atomic.StoreInt32(state[c.cid], 1)
+		// the documented assertion panics (nil key, nil loader, unsupported key type) are recovered by the caller,
+		// who goes on using the cache
+		defer func() {
+			if r := recover(); r != nil {
+				mu.Lock()
+				logf("ret c%d panic", c.cid)
+				mu.Unlock()
+				atomic.StoreInt32(state[c.cid], 2)
 			}
-			if c.kind == "fget" { // Future.Get2 is issued at its instant, or as soon as its Load has handed out the future
-				<-ready[c.of]
-			}
-			mu.Lock()
-			logf("call c%d", c.cid)
-			mu.Unlock()
-			atomic.StoreInt32(state[c.cid], 1)
-			// the documented assertion panics (nil key, nil loader, unsupported key type) are recovered by the caller,
-			// who goes on using the cache
-			defer func() {
-				if r := recover(); r != nil {
-					mu.Lock()
-					logf("ret c%d panic", c.cid)
-					mu.Unlock()
-					atomic.StoreInt32(state[c.cid], 2)
-				}
-			}()
-			switch c.kind {
-			case "load":
-				if c.nilLoader {
-					f := cache.Load(c.key, nil)
-					mu.Lock()
-					n, ok := futNo[f]
-					if !ok {
-						n = len(futNo)
-						futNo[f] = n
-					}
-					logf("ret c%d fut#%d", c.cid, n)
-					mu.Unlock()
-					break
-				}
-				f := cache.Load(c.key, func(key any) (any, error) {
-					mu.Lock()
-					n := invocations
-					invocations++
-					logf("lstart c%d k=%s #%d", c.cid, showKey(key), n)
-					mu.Unlock()
-					if c.dur > 0 {
-						time.Sleep(time.Duration(c.dur))
-					}
-					v, e := c.pair()
-					mu.Lock()
-					logf("lend #%d %s", n, showPair(v, e))
-					mu.Unlock()
-					return v, e
-				})
+		}()
+		switch c.kind {
+		case "load":
+			if c.nilLoader {
+				f := cache.Load(c.key, nil)
 				mu.Lock()
 				n, ok := futNo[f]
 				if !ok {
@@ -412,31 +403,76 @@ func runScenario(line string) string {
 				}
 				logf("ret c%d fut#%d", c.cid, n)
 				mu.Unlock()
-				futMu.Lock()
-				futs[c.cid] = f
-				futMu.Unlock()
-				close(ready[c.cid])
-			case "get2":
-				v, e := cache.Get2(c.key)
-				mu.Lock()
-				logf("ret c%d %s", c.cid, showPair(v, e))
-				mu.Unlock()
-			case "set":
-				v, e := c.pair()
-				cache.Set(c.key, v, e)
-				mu.Lock()
-				logf("ret c%d set", c.cid)
-				mu.Unlock()
-			case "fget":
-				futMu.Lock()
-				f := futs[c.of]
-				futMu.Unlock()
-				v, e := f.Get2()
-				mu.Lock()
-				logf("ret c%d %s", c.cid, showPair(v, e))
-				mu.Unlock()
+				break
 			}
-			atomic.StoreInt32(state[c.cid], 2)
+			f := cache.Load(c.key, func(key any) (any, error) {
+				mu.Lock()
+				n := invocations
+				invocations++
+				logf("lstart c%d k=%s #%d", c.cid, showKey(key), n)
+				mu.Unlock()
+				// a loader may itself consult the cache (dependent loads): its nested calls, in order, then its own work
+				if ns := nested[c.cid]; len(ns) > 0 {
+					for _, nc := range ns {
+						perform(nc)
+					}
+					mu.Lock()
+					logf("lmid #%d", n)
+					mu.Unlock()
+				}
+				if c.dur > 0 {
+					time.Sleep(time.Duration(c.dur))
+				}
+				v, e := c.pair()
+				mu.Lock()
+				logf("lend #%d %s", n, showPair(v, e))
+				mu.Unlock()
+				return v, e
+			})
+			mu.Lock()
+			n, ok := futNo[f]
+			if !ok {
+				n = len(futNo)
+				futNo[f] = n
+			}
+			logf("ret c%d fut#%d", c.cid, n)
+			mu.Unlock()
+			futMu.Lock()
+			futs[c.cid] = f
+			futMu.Unlock()
+			close(ready[c.cid])
+		case "get2":
+			v, e := cache.Get2(c.key)
+			mu.Lock()
+			logf("ret c%d %s", c.cid, showPair(v, e))
+			mu.Unlock()
+		case "set":
+			v, e := c.pair()
+			cache.Set(c.key, v, e)
+			mu.Lock()
+			logf("ret c%d set", c.cid)
+			mu.Unlock()
+		case "fget":
+			futMu.Lock()
+			f := futs[c.of]
+			futMu.Unlock()
+			v, e := f.Get2()
+			mu.Lock()
+			logf("ret c%d %s", c.cid, showPair(v, e))
+			mu.Unlock()
+		}
+		atomic.StoreInt32(state[c.cid], 2)
+	}
+	for _, c := range sc.calls {
+		c := c
+		if c.in >= 0 {
+			continue // issued from inside the loader of c.in
+		}
+		go func() {
+			if d := c.at - int64(time.Since(t0)); d > 0 {
+				time.Sleep(time.Duration(d))
+			}
+			perform(c)
 		}()
 	}
 	// The controller sleeps on the fake clock (this timer also keeps the runtime from declaring a deadlock when every
